@@ -73,6 +73,22 @@ pub fn op_run(case: &Value, dir: &Path) -> Value {
         }
         _ => None,
     };
+    // `pre`: selections made on the same loaded data before the one that is reported (null = everything, else a
+    // filter definition); their results are dropped — a selection must not depend on the selections made before it
+    if let Some(pre) = case.get("pre").and_then(|p| p.as_array()) {
+        for f in pre {
+            let _ = catch_unwind(AssertUnwindSafe(|| {
+                if f.is_null() {
+                    let _ = data.get_all();
+                } else {
+                    let fs = if f.is_string() { f.as_str().unwrap_or("").to_string() } else { f.to_string() };
+                    if let Ok(fd) = FilterDefinition::from_json_str(&fs) {
+                        let _ = data.filter(&fd);
+                    }
+                }
+            }));
+        }
+    }
     let set = catch_unwind(AssertUnwindSafe(|| match &filt {
         Some(fd) => data.filter(fd),
         None => data.get_all(),
